@@ -125,6 +125,10 @@ func C11(tier string) int {
 			{"f = " + lit + ` or f = "never"`, map[string]bool{s: true, other: false}},
 			{"f icontains " + lit, map[string]bool{s: true, "q" + s + "q": true}},
 			{"f not icontains " + lit, map[string]bool{s: false}},
+			// long lists (an implementation may switch to another lookup structure above some size)
+			{`f in ["n1", "n2", "n3", "n4", "n5", "n6", "n7", "n8", ` + lit + `, "n9", "n10", "n11", "n12", "n13", "n14", "n15", "n16"]`, map[string]bool{s: true, other: false, "n3": true}},
+			{"f in [" + lit + `, "n1", "n2", "n3", "n4", "n5", "n6", "n7", "n8"]`, map[string]bool{s: true, other: false}},
+			{`f not in ["n1", "n2", "n3", "n4", "n5", "n6", "n7", "n8", "n9", "n10", "n11", "n12", "n13", "n14", "n15", "n16", "n17", "n18", "n19", "n20", "n21", "n22", "n23", "n24", "n25", "n26", "n27", "n28", "n29", "n30", "n31", "n32", ` + lit + "]", map[string]bool{s: false, other: true}},
 		}
 		if s != "" && !strings.Contains(s, "é") {
 			// case-insensitive: the ASCII upper-case spelling of the field matches, a shorter field does not
